@@ -95,11 +95,16 @@ def grep_forbidden(files: list[Path]) -> list[str]:
 def audit_axioms(module: str, theorems: list[str]) -> dict[str, list[str]]:
     """`#print axioms` for every named theorem of `module`; returns theorem -> axioms."""
     src = f"import {module}\n" + "\n".join(f"#print axioms {t}" for t in theorems) + "\n"
-    tmp = LEAN / ".lake" / f"audit_{module.replace('.', '_')}.lean"
+    # one file per process: two checks auditing the same module at the same time must not share it
+    tmp = LEAN / ".lake" / f"audit_{module.replace('.', '_')}_{os.getpid()}.lean"
     tmp.parent.mkdir(exist_ok=True)
     tmp.write_text(src)
     p = run(["lake", "env", "lean", str(tmp)], cwd=LEAN, timeout=1200)
     out = p.stdout + p.stderr
+    try:
+        tmp.unlink()
+    except OSError:
+        pass
     if p.returncode != 0:
         raise ToolFailure("axiom audit failed:\n" + out[-3000:])
     res: dict[str, list[str]] = {}
